@@ -15,6 +15,7 @@ warm_symbolic_tables   builds CrossHair's Unicode tables once, before the runner
 import io
 import itertools
 import json
+import re
 import urllib.parse
 
 
@@ -373,6 +374,254 @@ class PyJson:
         if r.ws(i) != r.n:
             raise ModelJSONError("Extra data")
         return v
+
+
+# ---------------------------------------------------------------------------------------------- regexes that must finish
+# CrossHair turns a regex on symbolic text into a z3 formula (no backtracking) and CPython's engine cannot be interrupted
+# on concrete text, so a pattern that backtracks catastrophically is invisible both ways.  BudgetPattern is
+# stubs_c07.PyPattern - a backtracking interpreter of the parse tree CPython builds from the CURRENT pattern of the code
+# under test, with sre's priorities - plus a step counter: one step = one node of the pattern tried at one position.  A
+# match/search/finditer over a text of L characters that needs more than `budget(L)` steps is recorded in HANGS and
+# aborted with DidNotFinish: the deterministic stand-in for "the request hangs in the regex engine".
+HANGS = []                     # failure texts of the current request; the harness empties it before each request
+
+
+def budget(length):
+    """steps allowed for one match/search/finditer over a text of `length` characters: quadratic time passes, the
+    margin (x50) is such that an algorithm of cubic or exponential cost is over it from ~40 characters on"""
+    return 50 * length * length + 1000
+
+
+class DidNotFinish(Exception):
+    """raised inside the code under test; not a RequestError, so ombott cannot take it for a client error"""
+
+
+class _ByteText:
+    """a bytes subject as the text the interpreter reads: s[i] is a 1-character str, s[i:j] the bytes (for groups)"""
+
+    def __init__(self, data):
+        self.data = data
+
+    def __len__(self):
+        return len(self.data)
+
+    def __getitem__(self, i):
+        if isinstance(i, slice):
+            return self.data[i]
+        return chr(self.data[i])
+
+
+def _case_variants(code, is_bytes):
+    """code points that sre's IGNORECASE lets stand for `code` (candidates from the case mappings and sre's extra-case
+    table, each confirmed with the real engine)"""
+    if is_bytes:
+        ch = bytes([code])
+        cands = {code, ord(ch.lower()), ord(ch.upper())} if code < 128 else {code}
+        probe = re.compile(re.escape(ch), re.IGNORECASE)
+        return sorted(c for c in cands if probe.fullmatch(bytes([c])))
+    from re import _casefix
+    ch = chr(code)
+    cands = {code}
+    for t in (ch.lower(), ch.upper(), ch.swapcase(), ch.casefold()):
+        if len(t) == 1:
+            cands.add(ord(t))
+    for c in list(cands):
+        cands.update(_casefix._EXTRA_CASES.get(c, ()))
+        for k, extra in _casefix._EXTRA_CASES.items():
+            if c in extra:
+                cands.add(k)
+    for c in list(cands):
+        for t in (chr(c).lower(), chr(c).upper()):
+            if len(t) == 1:
+                cands.add(ord(t))
+    probe = re.compile(re.escape(ch), re.IGNORECASE)
+    return sorted(c for c in cands if probe.fullmatch(chr(c)))
+
+
+def _fold_case(nodes, is_bytes):
+    """parse tree of an IGNORECASE pattern rewritten so that the case-sensitive interpreter matches it: a literal
+    becomes the set of its case variants"""
+    from re import _constants as C
+    out = []
+    for op, av in nodes:
+        if op is C.LITERAL or op is C.NOT_LITERAL:
+            variants = _case_variants(av, is_bytes)
+            if len(variants) > 1 or op is C.NOT_LITERAL:
+                items = [(C.NEGATE, None)] if op is C.NOT_LITERAL else []
+                out.append((C.IN, items + [(C.LITERAL, v) for v in variants]))
+            else:
+                out.append((op, av))
+        elif op is C.IN:
+            items = []
+            for iop, iav in av:
+                if iop is C.LITERAL:
+                    items += [(C.LITERAL, v) for v in _case_variants(iav, is_bytes)]
+                elif iop is C.RANGE:
+                    if iav[1] - iav[0] > 255:
+                        raise NotImplementedError("BudgetPattern: wide range under IGNORECASE")
+                    for c in range(iav[0], iav[1] + 1):
+                        items += [(C.LITERAL, v) for v in _case_variants(c, is_bytes)]
+                else:
+                    items.append((iop, iav))
+            out.append((op, items))
+        elif op is C.BRANCH:
+            out.append((op, (av[0], [_fold_case(list(alt), is_bytes) for alt in av[1]])))
+        elif op is C.SUBPATTERN:
+            out.append((op, (av[0], av[1], av[2], _fold_case(list(av[3]), is_bytes))))
+        elif op in (C.MAX_REPEAT, C.MIN_REPEAT):
+            out.append((op, (av[0], av[1], _fold_case(list(av[2]), is_bytes))))
+        else:
+            out.append((op, av))
+    return out
+
+
+class _Run:
+    """step account of one match / search / whole finditer iteration"""
+
+    def __init__(self, length):
+        self.length = length
+        self.steps = 0
+
+
+def _make_budget_pattern():
+    from .stubs_c07 import PyPattern, _check
+
+    class BudgetPattern(PyPattern):
+        """PyPattern of a compiled pattern of the code under test (str or bytes, no flags or IGNORECASE) that counts
+        its steps.  `what` names the parser the pattern belongs to, for the failure text."""
+
+        def __init__(self, compiled, what):
+            from re import _parser
+            pattern = compiled.pattern
+            self.is_bytes = isinstance(pattern, bytes)
+            if compiled.flags & ~(re.IGNORECASE | (0 if self.is_bytes else re.UNICODE)):
+                raise NotImplementedError("BudgetPattern: flags %r" % (compiled.flags,))
+            self.what = what
+            self.pattern = pattern
+            self.flags = compiled.flags
+            self.groups = compiled.groups
+            self.groupindex = dict(compiled.groupindex)
+            nodes = list(_parser.parse(pattern, compiled.flags & re.IGNORECASE))
+            _check(nodes)
+            if compiled.flags & re.IGNORECASE:
+                nodes = _fold_case(nodes, self.is_bytes)
+            self._nodes = nodes
+            self._run = _Run(0)
+            self.max_ratio = 0.0           # highest steps / budget seen (natively; for the evidence)
+
+        def _seq(self, nodes, k, s, n, i, spans, cont):
+            run = self._run
+            run.steps += 1
+            # the length may be a solver value: it is looked at only once the count passed the constant part
+            if run.steps > 1000 and run.steps > budget(run.length):
+                text = "%s: the regular expression %r did not finish within %d steps (50*L*L+1000) on a text of L = " \
+                       "%d characters: catastrophic backtracking, the request hangs in the regex engine" % (
+                           self.what, self.pattern, run.steps - 1, run.length)
+                HANGS.append(text)
+                raise DidNotFinish(text)
+            return super()._seq(nodes, k, s, n, i, spans, cont)
+
+        def _counted(self, run, call):
+            """one stretch of interpretation on the account `run`, with room for the interpreter's recursion (it
+            uses a few frames per character of the subject)"""
+            import sys
+            before = sys.getrecursionlimit()
+            sys.setrecursionlimit(max(before, 100000))
+            self._run = run
+            try:
+                return call()
+            finally:
+                sys.setrecursionlimit(before)
+
+        def _text(self, s):
+            if self.is_bytes != isinstance(s, (bytes, bytearray)):
+                raise TypeError("cannot use a %s pattern on this subject" % ("bytes" if self.is_bytes else "string"))
+            return _ByteText(s) if self.is_bytes else s
+
+        def match(self, s, pos=0):
+            s = self._text(s)
+            return self._counted(_Run(len(s)), lambda: self._match_at(s, len(s), pos, False))
+
+        def search(self, s, pos=0):
+            s = self._text(s)
+            return self._counted(_Run(len(s)), lambda: self._search(s, pos, False))
+
+        def finditer(self, s, pos=0):
+            s = self._text(s)
+            run = _Run(len(s))
+            must_advance = False
+            while True:
+                m = self._counted(run, lambda: self._search(s, pos, must_advance))
+                if m is None:
+                    return
+                yield m
+                must_advance = m.end() == m.start()
+                pos = m.end()
+
+    return BudgetPattern
+
+
+def budget_patterns():
+    """{site: (object, attribute, original compiled pattern, BudgetPattern)} for every regular expression that
+    ombott applies to text taken from the request body or its Content-Type, built from the patterns the code under
+    test has NOW."""
+    from ombott.request_pkg import body_mixin, multipart
+    cls = _make_budget_pattern()
+    sites = {
+        "field": (multipart.FieldStorage, "_patt", "multipart part header parameter parser (FieldStorage.parse_header)"),
+        "headers-end": (multipart, "end_headers_patt", "multipart header block scanner (HeadersEaeter._eat_headers)"),
+        "boundary": (body_mixin, "MULTIPART_BOUNDARY_PATT", "Content-Type boundary parser (BodyMixin._body)"),
+    }
+    out = {}
+    for site, (obj, attr, what) in sites.items():
+        original = getattr(obj, attr)
+        if not isinstance(original, re.Pattern):
+            original = original.original
+        counted = cls(original, what)
+        counted.original = original
+        out[site] = (obj, attr, original, counted)
+    return out
+
+
+def use_budget_patterns(patterns, on):
+    """rebind (this process only) the three patterns to their counting interpreters, or back to the compiled ones"""
+    for obj, attr, original, counted in patterns.values():
+        setattr(obj, attr, counted if on else original)
+
+
+def validate_budget_patterns(patterns, maxlen=4):
+    """every BudgetPattern against the compiled pattern it was built from: match/search/finditer agree on every text
+    up to `maxlen` over the characters the patterns distinguish (+ upper/lower/extra-case letters for IGNORECASE)"""
+    from .stubs_c07 import _sig
+    alphabets = {"field": 'a=;"\\ \n', "headers-end": b"\r\nx-", "boundary": None}
+    count = 0
+    for site, (_, _, real, mine) in patterns.items():
+        if site == "boundary":
+            texts = []
+            for head in ("multipart/", "MULTIPART/", "Multipart/x", "multipart", "muſtipart/"):
+                for mid in ("", "x", "x;", "\n"):
+                    for key in ("boundary=", "BOUNDARY=", "Boundary=", "boundary", "boundarı=", "Kboundary="):
+                        for tail in ("", "b", 'b;', '"b"', "b\n", "b\nc", ";", "bc;d", "=b=;"):
+                            texts.append(head + mid + key + tail)
+        else:
+            alphabet = alphabets[site]
+            texts = []
+            for ln in range(maxlen + 1):
+                for tup in itertools.product(range(len(alphabet)), repeat=ln):
+                    texts.append(alphabet[0:0].join(alphabet[j:j + 1] for j in tup))
+        for s in texts:
+            for meth in ("match", "search"):
+                a, b = _sig(getattr(real, meth)(s)), _sig(getattr(mine, meth)(s))
+                assert a == b, (site, meth, s, a, b)
+            a, b = [_sig(m) for m in real.finditer(s)], [_sig(m) for m in mine.finditer(s)]
+            assert a == b, (site, "finditer", s, a, b)
+            count += 3
+        if site == "headers-end":
+            for s, pos in ((b"ab\r\n\r\ncd", 2), (b"ab\r\n\r\ncd", 3), (b"\r\n\r", 1), (b"xx\r", 1)):
+                a, b = _sig(real.search(s, pos)), _sig(mine.search(s, pos))
+                assert a == b, (site, "search+pos", s, pos, a, b)
+                count += 1
+    return count
 
 
 # ---------------------------------------------------------------------------------------------- installation
